@@ -87,18 +87,19 @@ Print Assumptions C05_arg_value_agree.
 
 (* the hypotheses are satisfiable: the executable instance used by the correspondence check
    (Z keys with one NaN key) satisfies them *)
+Local Opaque znan.
 Lemma zcmp_ok : pcmp_ok Z zcmp znan.
 Proof.
-  unfold zcmp, znan. constructor.
-  - intros a b. destruct (Z.eqb a nank); destruct (Z.eqb b nank); cbn; split; intros H;
+  unfold zcmp. constructor.
+  - intros a b. destruct (znan a); destruct (znan b); cbn; split; intros H;
       try discriminate; try tauto; try (destruct H; discriminate); auto.
   - intros a Ha. rewrite Ha. cbn. now rewrite Z.compare_refl.
-  - intros a b. destruct (Z.eqb a nank); destruct (Z.eqb b nank); cbn; try (split; discriminate).
+  - intros a b. destruct (znan a); destruct (znan b); cbn; try (split; discriminate).
     rewrite (Z.compare_antisym a b). destruct (Z.compare a b); cbn; split; intros H; try discriminate; auto.
-  - intros a b. destruct (Z.eqb a nank); destruct (Z.eqb b nank); cbn; try discriminate.
+  - intros a b. destruct (znan a); destruct (znan b); cbn; try discriminate.
     rewrite (Z.compare_antisym a b). destruct (Z.compare a b); cbn; intros H; try discriminate; auto.
   - intros a b c. unfold cle.
-    destruct (Z.eqb a nank); destruct (Z.eqb b nank); destruct (Z.eqb c nank); cbn;
+    destruct (znan a); destruct (znan b); destruct (znan c); cbn;
       try (intros [H|H]; discriminate); try (intros _ [H|H]; discriminate).
     intros Hab Hbc.
     assert (Hab' : (a ?= b)%Z <> Gt) by (destruct Hab as [H|H]; inversion H as [H']; rewrite H'; discriminate).
@@ -107,6 +108,7 @@ Proof.
     exfalso. apply Z.compare_gt_iff in E. apply Z.compare_le_iff in Hab'. apply Z.compare_le_iff in Hbc'.
     apply (Z.lt_irrefl a). eapply Z.le_lt_trans; [exact Hab'|]. eapply Z.le_lt_trans; [exact Hbc'|exact E].
 Qed.
+Local Transparent znan.
 Print Assumptions zcmp_ok.
 
 Example C05_example :
@@ -114,5 +116,5 @@ Example C05_example :
   min_trav Z zcmp [3;1;4;1;5]%Z [5;1;4;1;3]%Z = MM_Ok 1%Z /\
   argmin Z zcmp [3; nank; 1]%Z = MM_Undef /\ argmin Z zcmp [] = MM_Empty /\
   pcmp_ok Z zcmp znan.
-Proof. repeat split; try (vm_compute; reflexivity); apply zcmp_ok. Qed.
+Proof. do 5 (split; [vm_compute; reflexivity|]). exact zcmp_ok. Qed.
 Print Assumptions C05_example.
